@@ -285,8 +285,15 @@ def main():
                         continue
                     ks = list(target._dict)
                     sel = [unq(k) for k in rng.sample(ks, rng.randint(1, len(ks)))]
+                    if rng.random() < 0.15:
+                        # a selection that names a child twice, or a child that is not there, is refused (KeyError): a container
+                        # lists its children once
+                        sel.insert(rng.randint(0, len(sel)), rng.choice([sel[0], "nope"]))
                     opc = "(OSelect %d %s %s)" % (h, clist(path, cchars), clist(sel, cchars))
-                    roots.append(target[tuple(sel)])
+                    try:
+                        roots.append(target[tuple(sel)])
+                    except KeyError:
+                        pass
                 elif kind == "attr":
                     k = rng.choice(["units", "long name", "x"])
                     v = rng.randint(1, 50)
